@@ -56,13 +56,28 @@ func VpC07AuditFormats() {
 	}).(*corazawaf.WAF)
 	w := &vpFormatsWriter{}
 	waf.SetAuditLogWriter(w)
+	waf.UploadDir = vp.TempDir()
 	tx := waf.NewTransaction()
 	tx.ProcessConnection("10.0.0.1", 1234, "10.0.0.2", 80)
 	tx.ProcessURI("/p?a=x&b=y", "POST", "HTTP/1.1")
 	tx.AddRequestHeader("Host", "h")
-	tx.AddRequestHeader("Content-Type", "application/x-www-form-urlencoded")
-	tx.ProcessRequestHeaders()
-	_, _, _ = tx.WriteRequestBody([]byte("c=" + vp.String("bodyv", 1)))
+	hasJ := false
+	for _, c := range parts {
+		if c == 'J' {
+			hasJ = true
+		}
+	}
+	if hasJ && vp.Choice("upload", 2) == 1 {
+		// part J lists uploaded files: a multipart request with two files of the same name
+		tx.AddRequestHeader("Content-Type", "multipart/form-data; boundary=B")
+		tx.ProcessRequestHeaders()
+		part := "--B\r\nContent-Disposition: form-data; name=\"f\"; filename=\"x.txt\"\r\nContent-Type: text/plain\r\n\r\n"
+		_, _, _ = tx.WriteRequestBody([]byte(part + "x" + vp.String("bodyv", 1) + "\r\n" + part + "yy\r\n--B\r\nContent-Disposition: form-data; name=\"a\"\r\n\r\nx\r\n--B--\r\n"))
+	} else {
+		tx.AddRequestHeader("Content-Type", "application/x-www-form-urlencoded")
+		tx.ProcessRequestHeaders()
+		_, _, _ = tx.WriteRequestBody([]byte("c=" + vp.String("bodyv", 1)))
+	}
 	_, _ = tx.ProcessRequestBody()
 	if vp.Choice("response", 2) == 1 && !tx.IsInterrupted() {
 		tx.AddResponseHeader("Content-Type", "text/plain")
